@@ -18,6 +18,7 @@ CONSTANTS
   UseAccounts2 = FALSE
   UseSelf = FALSE
   FundAcct2 = TRUE
+  UseBuild = FALSE
   UseDiverge = FALSE
   UseAdv = FALSE
 SPECIFICATION Spec
